@@ -103,7 +103,16 @@ func (w *World) StartMint(name string, cfg mint.Config) (*MintNode, error) {
 	cfg.MintPath = n.Dir
 	cfg.LogLevel = mint.Disable
 	cfg.LightningClient = w.LN.Client(name, inc)
-	m, err := mint.LoadMint(cfg)
+	var m *mint.Mint
+	var err error
+	func() {
+		defer func() {
+			if r := recover(); r != nil {
+				err = fmt.Errorf("LoadMint panicked: %v", r)
+			}
+		}()
+		m, err = mint.LoadMint(cfg)
+	}()
 	if err != nil {
 		n.Epoch--
 		return n, err
